@@ -11,7 +11,7 @@ from mc.space import explore
 
 PROP = "C01"
 RULE = ("every record sequence of the S1..S5 space (type x value alphabet core+ext(seed), all lists of length<=2, pair "
-        "products, metadata products, all shape sequences up to L, wrapped atoms) is written and read through 4 channels "
+        "products, metadata products, all shape sequences up to L, wrapped atoms) is written and read through 5 channels (incl. one under an active comparison-ignore configuration) "
         "(+3 codecs in thorough); a case is non-trivial if at least one record was accepted by its constructors and its "
         "observation is not the all-None record; distinct = distinct case literal")
 
@@ -19,7 +19,7 @@ _counter = [0]
 
 
 def channels(tier):
-    ch = ["lowlevel", "path", "path.gz", "fileobj"]
+    ch = ["lowlevel", "path", "path.gz", "fileobj", "lowlevel+ignore"]
     if tier == "thorough":
         ch += ["path.bz2", "path.lz4", "path.zst"]
     return ch
@@ -31,6 +31,12 @@ TIER = ["quick"]
 def roundtrip(records, channel):
     from flow.record import RecordReader, RecordStreamReader, RecordStreamWriter, RecordWriter
 
+    if channel == "lowlevel+ignore":
+        # writing and reading while a comparison-ignore set is configured must not change what goes on the wire
+        from flow.record import ignore_fields_for_comparison
+
+        with ignore_fields_for_comparison(["_generated", "x", "a", "n"]):
+            return roundtrip(records, "lowlevel")
     if channel == "lowlevel":
         buf = io.BytesIO()
         w = RecordStreamWriter(buf)
